@@ -1,7 +1,10 @@
 """C05 — every listed unit spelling maps to its canonical unit and keeps the number.
 
 Tie of RTV.Model.Unit to the working tree:
-  unit level   (a) `bind_dictionary` over the tables wired into every registered model's parser configuration ==
+  unit level   (f) recorded calls of the real `NumberWithUnitExtractor.extract` / `_select_candidates` /
+                   `BaseMergedUnitExtractor.extract` (lib/uxrec.py: matcher, number-extractor and regex inputs recorded from the
+                   harness process) replayed through RTV.Model.UnitExtract — every table row and seeded multi-entity sentences;
+               (a) `bind_dictionary` over the tables wired into every registered model's parser configuration ==
                    the model's `buildUnitMap` (whole bound map, order included);
                (b) real `NumberWithUnitParser.parse` on hand-built extract results `"7 <form>"` / `"<form> 7"` for every
                    row == the model's `parseUnit`;  (c) unit-key assembly on seeded texts;  (d) ISO lookup; (e) compound
@@ -31,7 +34,7 @@ REQUIRED_THEOREMS = ['unitmap_lookup', 'unitmap_listed', 'key_assembly_suffix', 
                      'nwu_suffix_span', 'nwu_prefix_span', 'nwu_result_text_is_slice', 'nwu_result_text_is_slice_full',
                      'nwu_relative_number_start', 'extract_then_parse_unit', 'select_no_conflict_identity',
                      'select_results_from_input', 'select_returns_partial', 'select_misaligned_raises',
-                     'nwu_prefix_only_suppressed_witness']
+                     'nwu_prefix_only_suppressed_witness', 'merged_result_text_is_slice']
 RULE = ('exhaustive over every (culture, model, prefix|suffix, unit, spelling) row of the tables wired into the registered '
         'NumberWithUnit models (first extractor/parser pair of each model) × numerals {7} (quick) or {7, 1,234, 0.5 in the '
         'culture\'s marks} (thorough); all main/fraction pairs of CurrencyFractionMapping with an English spelling × '
@@ -45,7 +48,7 @@ ASSUMPTIONS = ['NumberWithUnitExtractor.extract / _extract_separate_units / _sel
                'ambiguous_unit_number_multiplier_regex / half_unit_regex, the keep-masks of the two _filter_ambiguity '
                'calls; the correspondence records them on every replayed call',
                'BaseMergedUnitExtractor grouping (__merge_pure_number / __merged_compound_units) is modelled as span '
-               'arithmetic with the connector-regex test per gap as a parameter (correspondence only, no theorem)',
+               'arithmetic with the connector-regex test per gap as a parameter (theorem: merged_result_text_is_slice)',
                'str.lower is modelled per code point (final-sigma rule not modelled)']
 CJK = ('zh-cn', 'ja-jp')
 
